@@ -4,7 +4,7 @@
   Every statement is an unconditional equality of functions; a source change that alters what one of these
   functions computes makes its proof fail.
 -/
-import Stevia.Generated.Avl8
+import Stevia.Generated.Avl8Query
 import Stevia.Proofs.GenLemmas
 import Stevia.Model.TreeImpTerm
 
@@ -78,10 +78,6 @@ theorem lowest_eq (d : Rec α β) (m : TreeImage α β) :
       · simp only [h1, ne_eq, not_true_eq_false, not_false_eq_true, if_true, if_false, pure_bind]; rfl
       · simp only [h1, ne_eq, not_false_eq_true, not_true_eq_false, if_true, if_false, pure_bind]
         exact ih _
-
-theorem from_bytes_mut_eq (d : Rec α β) (m : TreeImage α β) :
-    from_bytes_mut d m = Imp.openMut cfgU8 m := by
-  simp only [from_bytes_mut, Imp.openMut, cfgU8, Id.run, bind, pure, gt_iff_lt]
 
 /-- `get_mut` yields the place of the value (its record index); writing through it is `Imp.update`. -/
 theorem get_mut_eq (d : Rec α β) (m : TreeImage α β) (key : α) (v : β) :
